@@ -174,9 +174,17 @@ def run(prog, ctx):
                     and isinstance(n.ast.target.value, ast.Name) and n.ast.target.value.id == bname and n.idx in c.reachable():
                 t = tm.term(n.ast.value)
                 # role of the sign factor: a local some definition of which reads self.classes[...] (the other one being the constant 1)
+                def _label_reads(b):
+                    """class-label subscripts that decide / make up this definition: in its value, or in a test that dominates it"""
+                    found = {x[2] for x in subterms(tm.term(b.value)) if x[0] == "s" and x[1] == ("a", ("n", "self"), "classes")}
+                    bn = c.node_of(b.stmt)
+                    if bn is not None:
+                        for (g, gn) in R.dominating_guards(fi, bn, tm):
+                            if gn.kind == "test" and gn.loops and n.loops and any(l in n.loops for l in gn.loops):
+                                found |= {x[2] for x in subterms(g) if x[0] == "s" and x[1] == ("a", ("n", "self"), "classes")}
+                    return found
                 SG = {nm for nm, bs in tm.env.bindings.items() for b in bs if b.kind == "assign" and b.value is not None
-                      and any(x[0] == "s" and x[1] == ("a", ("n", "self"), "classes") for x in subterms(tm.term(b.value)))
-                      and not isinstance(b.value, (ast.ListComp, ast.GeneratorExp, ast.Call))}
+                      and not isinstance(b.value, (ast.ListComp, ast.GeneratorExp, ast.Call)) and _label_reads(b)}
                 used_sg = [x[1] for x in subterms(t) if x[0] == "n" and x[1] in SG]
                 if not used_sg:
                     continue
@@ -198,7 +206,7 @@ def run(prog, ctx):
                     v = tm.term(b.value)
                     if v in (("c", "1.0"), ("c", "1")):
                         continue
-                    found = {x[2] for x in subterms(v) if x[0] == "s" and x[1] == ("a", ("n", "self"), "classes")}
+                    found = _label_reads(b)
                     if not found:
                         bad_def.append(src(b.stmt))
                     label_idx |= found
